@@ -4,6 +4,7 @@
 From Coq Require Import NArith List Bool.
 From AJ Require Import Model.Base Model.Pool Proofs.PoolProofs Model.Collection Proofs.CollProofs.
 From AJ Require Import Model.Value Model.JsonParse Model.MsgPack Proofs.ResourceBound.
+From AJ Require Import Model.StrBuild Proofs.StrBuildProofs.
 Local Open Scope N_scope.
 
 (* when no allocation fails — and also when some do — slots released by a removal are reused by later insertions
@@ -78,3 +79,80 @@ Print Assumptions C06_msgpack_document_linear_in_bytes_read.
 Example C06_example : sp_wf (sp_add [97] (sp_add [98] (sp_add [97] []))) /\
                       sp_refs [97] (sp_add [97] (sp_add [98] (sp_add [97] []))) = 2.
 Proof. split; [|reflexivity]. apply sp_wf_preserved, sp_wf_preserved, sp_wf_preserved, sp_wf_nil. Qed.
+
+(* ---- the string builder and the string pool, node by node, with the allocator calls they make (Model/StrBuild.v mirrors
+   Memory/StringBuilder.hpp, StringPool.hpp, StringNode.hpp; the library's own length fields, reference counts and its
+   exact sequence of allocate / reallocate / deallocate calls are compared with it on every run) ---- *)
+
+(* in every state reached by any sequence of stores and releases under any answers of the allocator: the length field of
+   every pooled node is the number of characters it holds, no two nodes hold the same string, every node has a user, the
+   scratch node's capacity is one of 31, 63, 127, ... within the length limit *)
+Theorem C06_string_nodes_invariant : forall g ops ans,
+  SInv g (fst (sb_run g sb_init ans ops)) /\ SCap (fst (sb_run g sb_init ans ops)).
+Proof. exact reachable_SInv. Qed.
+Print Assumptions C06_string_nodes_invariant.
+
+(* what is stored is what was appended, whatever capacity earlier strings left in the scratch node; and it is stored once *)
+Theorem C06_stored_string_is_the_appended_bytes : forall g st ans s st' ans' ev x, SInv g st ->
+  sb_store g st ans s = (st', ans', ev, Some x) ->
+  n_content x = s /\ n_len x = N.of_nat (length s) /\ n_data x = s /\ In x (sb_pool st') /\ occ s (sb_pool st') = 1%nat.
+Proof. exact store_stored. Qed.
+Print Assumptions C06_stored_string_is_the_appended_bytes.
+
+(* an equal string is shared: same node with one more reference, no new node, no allocator call from save(), and the scratch
+   node is kept so that the next string starts without an allocator call *)
+Theorem C06_equal_string_shares_the_node : forall g st ans s k y st' ans' ev x,
+  pool_find s (sb_pool st) = Some k -> nth_error (sb_pool st) k = Some y ->
+  sb_store g st ans s = (st', ans', ev, Some x) ->
+  x = bump y /\ sb_pool st' = pool_addref k (sb_pool st) /\ nth_error (sb_pool st') k = Some x /\
+  (forall j, j <> k -> nth_error (sb_pool st') j = nth_error (sb_pool st) j) /\
+  length (sb_pool st') = length (sb_pool st) /\
+  (exists st1 ans1 e1 st2 e2, sb_start g st ans = (st1, ans1, e1) /\ sb_appends g st1 ans1 s = (st2, ans', e2) /\ ev = e1 ++ e2) /\
+  sb_scratch st' <> None /\
+  (forall ans2, exists cap, sb_start g st' ans2 = (mk (sb_pool st') (Some (cap, 0, [])), ans2, [])).
+Proof. exact store_shared. Qed.
+Print Assumptions C06_equal_string_shares_the_node.
+
+(* a store that fails leaves the pool untouched and holds no block; with an allocator that always answers it fails exactly
+   for strings longer than the length limit (65535 / 255 characters in the library's configurations) *)
+Theorem C06_failed_store_touches_nothing : forall g st ans s st' ans' ev,
+  sb_store g st ans s = (st', ans', ev, None) -> sb_pool st' = sb_pool st /\ sb_scratch st' = None.
+Proof. exact store_fail_clean. Qed.
+Print Assumptions C06_failed_store_touches_nothing.
+
+Theorem C06_store_fails_only_beyond_the_limit : forall g k st ans s, SInv g st -> SCap st -> s_max g = 2 ^ k - 1 -> 5 <= k ->
+  alltrue ans -> (snd (sb_store g st ans s) = None <-> s_max g < blen s).
+Proof. exact store_alltrue_pow. Qed.
+Print Assumptions C06_store_fails_only_beyond_the_limit.
+
+(* allocator traffic of one string is logarithmic in its length, every request is for a capacity within the limit, and a
+   new string ends with one reallocation down to exactly its size *)
+Theorem C06_store_allocator_calls_logarithmic : forall g st ans s st' ans' ev r, SInv g st ->
+  sb_store g st ans s = (st', ans', ev, r) -> (length ev <= 2 * Nat.log2 (length s + 32) + 4)%nat.
+Proof. exact store_events_log_nat. Qed.
+Print Assumptions C06_store_allocator_calls_logarithmic.
+
+Theorem C06_store_requests_within_limit : forall g st ans s st' ans' ev r, SInv g st ->
+  sb_store g st ans s = (st', ans', ev, r) -> Forall (ev_ok g) ev.
+Proof. exact store_events_ok. Qed.
+Print Assumptions C06_store_requests_within_limit.
+
+Theorem C06_new_string_shrunk_to_size : forall g st ans s st' ans' ev x, SInv g st -> pool_find s (sb_pool st) = None ->
+  sb_store g st ans s = (st', ans', ev, Some x) ->
+  x = fresh s /\ sb_pool st' = fresh s :: sb_pool st /\ sb_scratch st' = None /\
+  exists e12 cap, ev = e12 ++ [EvRealloc (size_for g cap) (size_for g (N.of_nat (length s))) true] /\
+                  N.of_nat (length s) <= cap /\ cap <= s_max g /\ 31 <= cap.
+Proof. exact store_new_node. Qed.
+Print Assumptions C06_new_string_shrunk_to_size.
+
+(* stored n times and released n times: the pool is as before (the last release frees the node, with one deallocation) *)
+Theorem C06_store_n_release_n : forall g s n st ans st' ans', SInv g st -> store_n g st ans s n = Some (st', ans') ->
+  sb_pool (deref_n g st' s n) = sb_pool st.
+Proof. exact store_deref_n. Qed.
+Print Assumptions C06_store_n_release_n.
+
+Theorem C06_last_release_frees_the_node : forall g st x, SInv g st -> In x (sb_pool st) -> n_refs x = 1 ->
+  exists k, nth_error (sb_pool st) k = Some x /\ sb_deref g st (n_content x) =
+    (mk (firstn k (sb_pool st) ++ skipn (S k) (sb_pool st)) (sb_scratch st), [EvFree (size_for g (n_len x))]).
+Proof. exact deref_node_last. Qed.
+Print Assumptions C06_last_release_frees_the_node.
